@@ -42,6 +42,85 @@ func serializeAfterEdit(c *Ctx, h *history, info map[string]interface{}) {
 	}
 }
 
+// bigDeletionRoundTrip: a tape of > 70 000 words of which the second half (one run of tens
+// of thousands of deleted words, crossing the serializer's 64 KiB tag and value flushes) was
+// deleted, and one whose large nested container was replaced by null: the serialize round trip
+// in every mode still denotes the edited document.
+func bigDeletionRoundTrip(c *Ctx) {
+	for variant := 0; variant < 2; variant++ {
+		var sb strings.Builder
+		sb.WriteString(`[{"keep":"head"},[`)
+		for i := 0; i < 60000; i++ {
+			if i > 0 {
+				sb.WriteString(",")
+			}
+			switch i % 3 {
+			case 0:
+				fmt.Fprintf(&sb, `"s%d"`, i%700)
+			case 1:
+				fmt.Fprintf(&sb, "%d", i)
+			default:
+				sb.WriteString("true")
+			}
+		}
+		sb.WriteString(`],{"keep":"tail"}]`)
+		doc := []byte(sb.String())
+		out := implParse(doc, false, true, nil)
+		if out.Err {
+			return
+		}
+		it := iterAt(out.PJ, 2) // the root array
+		arr, err := it.Array(nil)
+		if err != nil {
+			return
+		}
+		inner := arr.Iter()
+		inner.Advance() // {"keep":"head"}
+		inner.Advance() // the big array
+		what := ""
+		if variant == 0 {
+			big, err := inner.Array(nil)
+			if err != nil {
+				return
+			}
+			n := 0
+			big.DeleteElems(func(simdjson.Iter) bool { n++; return n > 9000 })
+			what = "Array.DeleteElems of elements 9000.. of a 60000-element array"
+		} else {
+			if err := inner.SetNull(); err != nil {
+				return
+			}
+			what = "SetNull on a 60000-element array"
+		}
+		want, werr := dumpDoc(out.PJ)
+		if werr != nil {
+			return
+		}
+		for _, m := range compModes {
+			s := simdjson.NewSerializer()
+			s.CompressMode(m)
+			info := map[string]interface{}{"doc_text": "[{\"keep\":\"head\"},[60000 elements],{\"keep\":\"tail\"}]", "edit": what, "ser_mode": int(m), "tape_words": len(out.PJ.Tape)}
+			c.Ev.Count("big-deletion-roundtrip", []byte(fmt.Sprint(variant, m)), true)
+			blob, pan := safeSerialize(s, out.PJ)
+			if pan != "" {
+				info["panic"] = pan
+				c.Violate("panic", "Serialize panicked on a tape with a very long deleted run", "big-deletion-ser-panic", info)
+				continue
+			}
+			pj2, err, pan2 := safeDeserialize(simdjson.NewSerializer(), blob, nil)
+			if err != nil || pan2 != "" {
+				info["error"] = fmt.Sprint(err, pan2)
+				c.Violate("roundtrip", "Deserialize failed on the serialized form of a tape with a very long deleted run", "big-deletion-roundtrip-fail", info)
+				continue
+			}
+			if got, gerr := dumpDoc(pj2); gerr != nil || got != want {
+				info["want"], info["got"] = trunc(want, 200), trunc(got, 200)
+				c.Violate("roundtrip", "serialize round trip of a tape with a very long deleted run denotes a different document", "big-deletion-roundtrip-doc", info)
+			}
+		}
+	}
+}
+
 func init() {
 	extraAfterEdit = serializeAfterEdit
 	checks["C11"] = checkC11
@@ -145,6 +224,7 @@ func (c *Ctx) randomTape(r *Rng, big int) (*simdjson.ParsedJson, []byte) {
 
 func (c *Ctx) serRoundTrips(n int, stream string) {
 	r := c.Rng
+	bigDeletionRoundTrip(c)
 	noasm := startNoasm(filepath.Join(c.Verif, "build", "noasmdeser"))
 	defer noasm.close()
 	sers := map[simdjson.CompressMode]*simdjson.Serializer{}
